@@ -192,3 +192,18 @@ def run_shard(mod, tier, seed, shard, nshards, cases, only=None, budget_s=None):
     if cov is not None:
         res["lines"] = cov.stop()
     return res
+
+
+def scribble(obj):
+    """edit a returned object the way a caller might (it owns what it got back)"""
+    try:
+        if isinstance(obj, dict):
+            for k in list(obj)[:1]:
+                obj[k] = obj[k] * 3 if not isinstance(obj[k], (dict, list, set)) else obj[k]
+            obj[("__scribble__",)] = 41
+        elif isinstance(obj, list):
+            obj.append("__scribble__")
+        elif isinstance(obj, set):
+            obj.add("__scribble__")
+    except Exception:   # noqa
+        pass
